@@ -1,7 +1,7 @@
 (* Executable case runner for the state family (C03-C06): decodes one s-expression
    case, runs the mirrors of StateMods.v / Pacman.v and prints the observation. *)
 From Coq Require Import List String Ascii Bool NArith.
-From RashV Require Import Sexp Fs Octal StateMods Pacman StateSpec.
+From RashV Require Import Sexp Fs Octal StateMods Pacman StateSpec SeqSpec.
 Import ListNotations.
 Open Scope string_scope. Open Scope list_scope.
 
@@ -115,18 +115,33 @@ Definition run_fs (e : sexp) : option sexp :=
   | _ => None
   end.
 
-(* (declared TASK (world NODE...)) : does the declared state of TASK hold in that world?
-   evaluated on the IMPLEMENTATION's observed final state *)
+(* (declared (env UMASK TMPMODE) TASK (world NODE...) (before NODE...)) : does the declared state of TASK
+   hold in that world?  evaluated on the IMPLEMENTATION's observed final state *)
 Definition run_declared (e : sexp) : option sexp :=
   match e with
-  | SList [Atom "declared"; t; SList (Atom "world" :: ns); SList (Atom "before" :: bs)] =>
-      match dec_task t, map_opt dec_node ns, map_opt dec_node bs with
-      | Some t, Some ns, Some bs =>
+  | SList [Atom "declared"; SList [Atom "env"; um; tm]; t; SList (Atom "world" :: ns); SList (Atom "before" :: bs)] =>
+      match atom_N um, atom_N tm, dec_task t, map_opt dec_node ns, map_opt dec_node bs with
+      | Some um, Some tm, Some t, Some ns, Some bs =>
+          let env := {| umask := um; tmpmode := tm |} in
           Some (SList [show_bool (declared_b t (of_list bs) (of_list ns));
-                       show_bool (known_empty_create t (of_list bs));
+                       show_bool (known_empty_create env t (of_list bs));
                        show_bool (known_type_mismatch t (of_list bs));
-                       show_bool (known_absent_dangling t (of_list bs))])
-      | _, _, _ => None
+                       show_bool (known_absent_dangling t (of_list bs));
+                       show_bool (N.eqb (mask_perm (tmpmode env)) (mask_perm (file_create_mode env)))])
+      | _, _, _, _, _ => None
+      end
+  | _ => None
+  end.
+
+(* (noninterf (env UMASK TMPMODE) (world NODE...) (tasks TASK...)) : is the hypothesis of the sequence
+   theorem (Sequences.second_pass_is_noop) met by this first pass? *)
+Definition run_noninterf (e : sexp) : option sexp :=
+  match e with
+  | SList [Atom "noninterf"; SList [Atom "env"; um; tm]; SList (Atom "world" :: ns); SList (Atom "tasks" :: ts)] =>
+      match atom_N um, atom_N tm, map_opt dec_node ns, map_opt dec_task ts with
+      | Some um, Some tm, Some ns, Some ts =>
+          Some (show_bool (noninterf_b {| umask := um; tmpmode := tm |} ts {| sw := of_list ns; slog := [] |}))
+      | _, _, _, _ => None
       end
   | _ => None
   end.
